@@ -4660,6 +4660,11 @@ class PolyGrad(Array):
         builder.get_block_for_evaluable(self).assign_to(out, plan.call(coeffs))
         return out
 
+    def _derivative(self, var, seen):
+        # The gradient is linear in the coefficients.
+        dcoeffs = Transpose.to_end(derivative(self.coeffs, var, seen), *range(self.coeffs.ndim))
+        return Transpose.from_end(PolyGrad(dcoeffs, self.nvars), *range(self.ndim))
+
     def _simplified(self):
         if iszero(self.coeffs) or iszero(self.degree):
             return zeros_like(self)
